@@ -325,9 +325,19 @@ def _sea_case(rng):
     box = BOXES[int(rng.integers(len(BOXES)))]
     d = len(box)
     bounds = np.array(box, dtype=float)
-    which = int(rng.integers(0, 4))
-    pipe = ["sea", "seax", "ga", "sea"][which]
-    cls = [S.SEA, S.SEAWithCrossover, S.GAStyleSEA, S.SEAWithAdaptiveMutation][which]
+    which = int(rng.integers(0, 5))
+    pipe = ["sea", "seax", "ga", "sea", "sea"][which]
+
+    class MuPlusKES(S.BaseSEA):
+        """a user-defined (mu + k) strategy handed over through `EALevelConfig(ea_class=...)`: no tournament, the
+        mutation works on the parents directly"""
+
+        @classmethod
+        def create(cls, **kw):
+            problem = kw.get("problem")
+            return cls(variational_operators_pipeline=[S.GaussianMutation(std=kw.get("mutation_std", 1.0), bounds=problem.bounds, probability=kw.get("p_mutation", 1.0))], k_elites=kw.get("k_elites", 1))
+
+    cls = [S.SEA, S.SEAWithCrossover, S.GAStyleSEA, S.SEAWithAdaptiveMutation, MuPlusKES][which]
     n = int(rng.integers(3, 11))
     shape = int(rng.integers(0, 4))
     calls = []
@@ -361,6 +371,10 @@ def _sea_case(rng):
     f0 = _objective(shape, [], mx)
     inbox = lambda g: all(lo <= x <= hi for x, (lo, hi) in zip(g, box))  # noqa: E731
     pool = {p for p in P}
+    if k_el >= 1 and len(N) == n and all(f == f for _, f in P + N):
+        key = (lambda v: -v) if mx else (lambda v: v)
+        if min(key(f) for _, f in N) > min(key(f) for _, f in P):
+            viol.append(("C12/elitism-lost", f"{name} (k_elites={k_el}): best parent fitness {min(key(f) for _, f in P)} (sign-normalised), best of the new generation {min(key(f) for _, f in N)}"))
     for i, (g, f) in enumerate(O):
         if not inbox(g):
             viol.append(("C01/offspring-outside-box", f"{name}: offspring row {i} = {list(g)} lies outside the box {box}"))
@@ -384,7 +398,8 @@ def traced_sea_generation(eng, parents, box, mx, kw=None, calls=None):
     where the evaluated rows are read from `Population.evaluate` (rows without a fitness before, their values after)"""
     from pyhms.core.population import Population
 
-    pipe = {"SEA": "sea", "SEAWithAdaptiveMutation": "sea", "SEAWithCrossover": "seax", "GAStyleSEA": "ga"}[type(eng).__name__]
+    pipe = {"SEA": "sea", "SEAWithAdaptiveMutation": "sea", "SEAWithCrossover": "seax", "GAStyleSEA": "ga"}.get(type(eng).__name__, "sea")
+    has_tournament = any(type(op).__name__ == "TournamentSelection" for op in eng.variational_operators_pipeline)
     pX, pM = 0.0, 1.0
     for op in eng.variational_operators_pipeline:
         nm = type(op).__name__
@@ -420,7 +435,7 @@ def traced_sea_generation(eng, parents, box, mx, kw=None, calls=None):
     O = captured["off"]
     N = inds_pairs(new)
     Q = list(calls) if calls is not None else evaluated
-    cont = rec.randint[0]
+    cont = rec.randint[0] if has_tournament else [[i] for i in range(n)]  # no tournament: every row is itself
     scal = [x for x in rec.rand if np.ndim(x) == 0]
     mats = [x for x in rec.rand if np.ndim(x) == 2]
     pairs = []
